@@ -4,19 +4,29 @@
 
 package commitment
 
-//@ spec rvOK(rv string) bool
-//@ spec commitOfReveal(rv string) string
+// ---- C08: commitment = multihash(hash(hash(JCS(key)))), reveal = multihash(hash(JCS(key))) ----
 //
-//@ func GetCommitmentFromRevealValue
-//@   trusted
-//@   results c, err
-//@   ensures (err == nil) == rvOK(rv)
-//@   ensures err == nil ==> c == commitOfReveal(rv) && c != ""
-
-//@ spec commitOK(k *jws.JWK, code uint) bool
-//@ spec commitOf(k *jws.JWK, code uint) string
+//@ spec opaque commitOK(k *jws.JWK, code uint) bool { jcsOK(boxed(k)) && supported(code) }
+//@ spec opaque commitOf(k *jws.JWK, code uint) string { b64(mhEnc(code, hashOf(hashFor(code), hashOf(hashFor(code), jcs(boxed(k)))))) }
+//@ spec opaque rvOK(rv string) bool { mhCodeOK(rv) && supported(uint(mhCodeOf(rv))) }
+//@ spec opaque commitOfReveal(rv string) string { b64(mhEnc(mhCodeOf(rv), hashOf(hashFor(uint(mhCodeOf(rv))), mhDigestB(b64dec(rv))))) }
+//
 //@ func GetCommitment
-//@   trusted
+//@   reveals commitOK, commitOf
 //@   results c, err
 //@   ensures (err == nil) == commitOK(jwk, multihashCode)
 //@   ensures err == nil ==> c == commitOf(jwk, multihashCode)
+//
+//@ func GetRevealValue
+//@   results rv, err
+//@   ensures (err == nil) == (jcsOK(boxed(jwk)) && supported(multihashCode))
+//@   ensures err == nil ==> rv == modelMH(boxed(jwk), multihashCode)
+//
+//@ func GetCommitmentFromRevealValue
+//@   reveals rvOK, commitOfReveal, mhCodeOK, mhCodeOf
+//@   results c, err
+//@   ensures (err == nil) == rvOK(rv)
+//@   ensures err == nil ==> c == commitOfReveal(rv) && c != ""
+//
+// the commitment of a key always equals the hash of the decoded reveal value of that key
+//@ lemma commit-of-reveal: forall k *jws.JWK, c uint :: supported(c) ==> commitOfReveal(modelMH(boxed(k), c)) == commitOf(k, c) && rvOK(modelMH(boxed(k), c))
